@@ -10,6 +10,7 @@
                 a system or a zone was read: res = "ok" or the exception type
        "op"     name = "get_state" | "restore": res = "ok" or the exception type;
                 before / after = <<es, hdl, snd, rd, pw, disc>> projected out of the real objects
+       "nested" as "op", but requested while a restore is in flight (the engine is paused by it)
        "probe"  name = "packet" (a packet of a fresh device), "known" (a packet of a device the
                 gateway was tracking), "send" (a command): res = "ok" | "lost" | exception type
    Clauses (Appendix A): C13a every view returns without raising (the snapshot included);
@@ -43,6 +44,10 @@ Class(e) ==
   ELSE IF e.k = "op" THEN
      IF ~(SameProj(P(e.after), P(e.before)) /\ Running(P(e.after), noSend, noDisc))
      THEN "C13b:not-running-as-before-after-" \o e.name \o (IF e.res = "ok" THEN "" ELSE "-raised:" \o e.res)
+     ELSE ""
+  ELSE IF e.k = "nested" THEN    \* an operation requested while a restore is in flight: exactly as before, no more
+     IF ~SameProj(P(e.after), P(e.before))
+     THEN "C13b:not-as-before-after-nested-" \o e.name \o (IF e.res = "ok" THEN "" ELSE "-raised:" \o e.res)
      ELSE ""
   ELSE IF e.k = "probe" THEN
      IF e.res = "ok" THEN ""
